@@ -18,7 +18,7 @@ VARIABLES vL, vRef, vHeld, vMode
 rvars == <<vL, vRef, vHeld, vMode>>
 Rec == Log[vL]
 
-Groups == {"r", "lat", "tm", "icu", "icuvec", "apbp", "apbpdis", "dma", "mmio", "btdmp", "ahbm", "ext", "memnz", "memfirst"}
+Groups == {"r", "lat", "tm", "icu", "icuvec", "apbp", "apbpdis", "dma", "mmio", "btdmp", "ahbm", "ext", "memown", "memnz", "memfirst"}
 DiffGroups(a, b) == {g \in Groups : a[g] # b[g]}
 \* first few differing positions of a group (1-based), for the report
 Where(a, b, g) == IF g = "memnz" THEN <<a[g], b[g]>>
@@ -33,7 +33,7 @@ Zeros(n) == [i \in 1 .. n |-> 0]
 FreshResetConst ==
     [r |-> Pack(ResetRegs), lat |-> Zeros(7), tm |-> Zeros(20), icu |-> Zeros(5), icuvec |-> Zeros(48),
      apbp |-> <<1, 0, 0, 1, 0, 0, 1, 0, 0>> \o Zeros(9), apbpdis |-> Zeros(6), dma |-> Zeros(130),
-     btdmp |-> <<0, 4096, 0, 1, 0, 0, 0, 0, 4096, 0, 1, 0, 0, 0>>, ahbm |-> Zeros(40), ext |-> <<0, 0, 0>>,
+     btdmp |-> <<0, 4096, 0, 1, 0, 0, 0, 0, 4096, 0, 1, 0, 0, 0>>, ahbm |-> Zeros(40), ext |-> <<0, 0, 0>>, memown |-> <<1>>,
      memnz |-> 0, memfirst |-> <<>>]
 ConstGroups == DOMAIN FreshResetConst
 ReportRef(o) == LET D == {g \in ConstGroups : o[g] # FreshResetConst[g]} IN
